@@ -35,8 +35,11 @@ def applicable(feats):
 
 
 def updates(t):
-    """peel ("upd", base, ("ci", k, False), v) chains: returns (base, {k: v})"""
+    """peel ("upd", base, ("ci", k, False), v) chains: returns (base, {k: v}); an array literal
+    is the chain that sets every element"""
     m = {}
+    if t[0] == "agg" and t[1] == "array":
+        return None, {k: v for k, v in enumerate(t[4])}
     while t[0] == "upd" and t[2][0] == "ci" and not t[2][2]:
         m.setdefault(t[2][1], t[3])
         t = t[1]
